@@ -11,14 +11,14 @@ import (
 
 // C01 — dishonest counterparts.  Every line is one handshake:
 //
-//	hs <xx|ik> <policy> <serverAdv> <clientAdv> <listed 0|1> <name|noname>
+//	hs <xx|ik> <policy> <serverAdv> <clientAdv> <listed 0|1|2=listed then revoked> <name|noname>
 //	     -> c=<client ok> h=<handle offered> d=<data flows both ways>
 func main() { Main(map[string]*Suite{"C01": {Gen: gen, Run: run}}) }
 
 var (
 	modes      = []string{"xx", "ik"}
 	policies   = []string{"nil", "skip", "store", "authkeys", "both"}
-	serverAdvs = []string{"ok", "wrongkey", "othername", "expired", "notyet", "wrongtype", "otherroot", "selfsigned"}
+	serverAdvs = []string{"ok", "wrongkey", "othername", "othertype", "expired", "notyet", "wrongtype", "otherroot", "selfsigned"}
 	clientAdvs = []string{"ok", "wrongkey", "expired", "notyet", "otherroot", "selfsigned", "wrongtype"}
 )
 
@@ -43,7 +43,7 @@ func gen(g *GenCtx) {
 		// every client-side adversary against every policy, key listed or not
 		for _, p := range policies {
 			for _, c := range clientAdvs {
-				for listed := 0; listed < 2; listed++ {
+				for listed := 0; listed < 3; listed++ { // 2 = listed, then revoked
 					emit(m, p, "ok", c, listed, "name")
 				}
 			}
@@ -55,7 +55,7 @@ func gen(g *GenCtx) {
 	}
 	for i := 0; i < n; i++ {
 		g.Op("hs %s %s %s %s %d %s", Pick(g.R, modes), Pick(g.R, policies), Pick(g.R, serverAdvs), Pick(g.R, clientAdvs),
-			g.R.Intn(2), Pick(g.R, []string{"name", "name", "noname"}))
+			g.R.Intn(3), Pick(g.R, []string{"name", "name", "noname"}))
 	}
 }
 
@@ -70,8 +70,9 @@ func run(in *bufio.Scanner, out *bufio.Writer) {
 	for in.Scan() {
 		f := strings.Fields(in.Text())
 		res := "bad-op"
-		if len(f) == 7 && f[0] == "hs" && (f[1] == "xx" || f[1] == "ik") && (f[5] == "0" || f[5] == "1") {
-			sc := hs.Scenario{Hidden: f[1] == "ik", Policy: f[2], ServerAdv: f[3], ClientAdv: f[4], KeyListed: f[5] == "1", NoName: f[6] == "noname"}
+		if len(f) == 7 && f[0] == "hs" && (f[1] == "xx" || f[1] == "ik") && (f[5] == "0" || f[5] == "1" || f[5] == "2") {
+			sc := hs.Scenario{Hidden: f[1] == "ik", Policy: f[2], ServerAdv: f[3], ClientAdv: f[4], KeyListed: f[5] == "1", Revoked: f[5] == "2",
+				NoName: f[6] == "noname"}
 			res = Guard(func() string {
 				r := hs.Run(sc, nil)
 				return fmt.Sprintf("c=%d h=%d d=%d", b(r.ClientOK), b(r.Handle), b(r.C2S && r.S2C))
